@@ -51,7 +51,11 @@ func (c *sharedStreamProcess) packMessage(receiver, sender, forward *ProcessId, 
 	var dm *DeliveryMessage
 	switch wrapper := message.(type) {
 	case *MessageWrapper:
-		name, data, err := c.shared.config.codec.Encode(wrapper.Message)
+		inner := wrapper.Message
+		if err, ok := inner.(error); ok {
+			inner = &SharedErrorMessage{Message: err.Error()}
+		}
+		name, data, err := c.shared.config.codec.Encode(inner)
 		if err != nil {
 			panic(err)
 		}
